@@ -94,15 +94,18 @@ def locations(vd, drv, wd, rng, tier):
     locattrs = [v for v in vecs if v["kind"] == "locattr"]
     fixed = next(e for e in exprs if e["kind"] == "expr" and len(e["ops"]) == 2 and e["ops"][1]["atom"] == "fbreg")
     work = [(e, 2, "location") for e in exprs] + [(fixed, la["code"], la["at"]) for la in locattrs if la["at"] != "location"]
-    for ver, form in ((4, "exprloc"), (5, "exprloc"), (3, "block1"), (3, "loclist"), (2, "loclist")):
+    LISTS = ("loclist", "loclistx")
+    # DWARF 5: location lists live in .debug_loclists, reached by offset (sec_offset) or by index (loclistx), their
+    # entries bounded in five ways (two addresses, address and length, indices into .debug_addr, offsets from a base)
+    for ver, form in ((4, "exprloc"), (5, "exprloc"), (3, "block1"), (3, "loclist"), (2, "loclist"), (5, "loclist"), (5, "loclistx")):
         kids = []
         for e, atcode, atname in work:
-            if atname == "data_member_location" and form == "loclist":
+            if atname == "data_member_location" and form in LISTS:
                 # data4 / data8 of DW_AT_data_member_location is read by libdw as a constant offset in every
                 # version (the class is ambiguous in DWARF 3); not dwgrep's decision
                 continue
             did = newid()
-            if form == "loclist":
+            if form in LISTS:
                 nr = 1 + (did % 3)
                 ranges = []
                 for k in range(nr):
@@ -111,6 +114,17 @@ def locations(vd, drv, wd, rng, tier):
                 if not e["ops"]:
                     ranges = ranges[:1]
                 val = [(lo, hi, [(c[0], c[1]) for c in cs]) for lo, hi, cs in ranges]
+                if ver >= 5:
+                    val5 = []
+                    for k, (lo, hi, ops) in enumerate(val):
+                        kind = ("start_end", "start_length", "startx_endx", "startx_length", "offset_pair")[(did + k) % 5]
+                        if kind == "start_length": val5.append((kind, lo, hi - lo, ops))
+                        elif kind == "startx_length": val5.append((kind, lo, hi - lo, ops))
+                        elif kind == "offset_pair":
+                            val5.append(("base_address" if did % 2 else "base_addressx", lo - 8, None))
+                            val5.append((kind, 8, hi - lo + 8, ops))
+                        else: val5.append((kind, lo, hi, ops))
+                    val = val5
                 plan.append((did, form, ranges, atname))
             else:
                 c = concretize(e["ops"], rng)
@@ -139,7 +153,7 @@ def locations(vd, drv, wd, rng, tier):
             vd.observe(key + ": query failed", {"observed": rec, "die": did}); continue
         g = rec["results"][0][-1]["v"]
         elems = g[0]["v"]
-        if form == "loclist" and not atoms:
+        if form in LISTS and not atoms:
             pass
         if len(elems) != len(ranges):
             vd.observe(key + ": %d elements, expected %d" % (len(elems), len(ranges)), {"observed": elems}); continue
@@ -148,9 +162,9 @@ def locations(vd, drv, wd, rng, tier):
             ev = el["v"]
             glo = D.cst(ev[0]) if ev[0]["t"] == "cst" else None
             ghi = D.cst(ev[1]) if ev[1]["t"] == "cst" else None
-            if form == "loclist" and (glo, ghi) != (lo, hi):
+            if form in LISTS and (glo, ghi) != (lo, hi):
                 vd.observe(key + ": address range", {"expected": [lo, hi], "observed": [glo, ghi]}); ok = False; break
-            if form != "loclist" and (glo, ghi) != (0, 2**64 - 1):
+            if form not in LISTS and (glo, ghi) != (0, 2**64 - 1):
                 vd.observe(key + ": address range of an expression without ranges", {"observed": [glo, ghi]}); ok = False; break
             if D.cst(ev[2]) != len(cs):
                 vd.observe(key + ": length", {"expected": len(cs), "observed": ev[2]}); ok = False; break
